@@ -41,11 +41,12 @@ def tasks(tier, seed):
                 ts.append(dict(kind='sem', name='sem/%s/%s/%s' % (p['name'], '-'.join(str(c[-1]) if len(c) > 1 else 'r' for c in shape), cname), prog=p['name'], shape=[list(c) for c in shape],
                                caller=cname, cost=sum(c[1] if c[0] == 'list' else 1 for c in shape)))
     ts.append(dict(kind='special', name='concrete/special-and-unrepresentable-arguments', cost=5))
+    ts.append(dict(kind='entry', name='concrete/entry-conversion', cost=1))
     return ts
 
 
 def required_witnesses(tier):
-    return ['returns', 'reference-stuck-and-real-raises', 'with-block', 'callee-call', 'concrete-special']
+    return ['returns', 'reference-stuck-and-real-raises', 'with-block', 'callee-call', 'concrete-special', 'concrete-entry']
 
 
 def num_helpers():
@@ -81,7 +82,15 @@ def num_helpers():
         if isinstance(a, Float) or not isinstance(b, Float):
             return bool(a == b)
         return bool(b == a)
+    def rational(v):
+        from pysym.core import SymInt
+        if isinstance(v, Float):
+            if type(v.c) is SymInt or type(v.exp) is SymInt or type(v.s) is SymInt or v.is_nar():
+                raise Unsupported('symbolic or special operand of %')
+            return v.as_rational()
+        return Fraction(v)
     return dict(
+        rational=rational, from_rational=lambda q: Float.from_rational(q),
         isnan=lambda x: isinstance(x, Float) and bool(x.isnan), isinf=lambda x: isinstance(x, Float) and bool(x.isinf),
         signbit=lambda x: bool(x.s) if isinstance(x, Float) else x < 0, lt=lt, eq=eq,
         as_index=as_index, is_ctx=lambda v: isinstance(v, fp.Context), neg_zero=lambda: Float(s=True, exp=0, c=0), real_ctx=fp.REAL, default_ctx=fp.FP64)
@@ -100,9 +109,66 @@ def caller_of(name):
     return None if CALLERS[name] is None else eval(CALLERS[name], {'fp': fp})  # noqa: S307
 
 
+ENTRY_SRC = '''
+@fp.fpy
+def diff(x: fp.Real, y: fp.Real) -> fp.Real:
+    with fp.REAL:
+        return x - y
+
+@fp.fpy
+def pick(xs: list[fp.Real], t: tuple[fp.Real, fp.Real]) -> fp.Real:
+    with fp.REAL:
+        return xs[1] - t[0]
+'''
+
+
+def entry_cases():
+    """(label, python argument pair): host values of every kind the API accepts, including ones no double holds"""
+    from fractions import Fraction
+    from fpy2 import Float
+    big = [2 ** 53 + 1, 10 ** 30 + 7, -(2 ** 64) - 3, Fraction(2 ** 70 + 1, 2 ** 10), Fraction(-(3 ** 40), 2 ** 3), 0.1, 1e22, -2.5, Float(False, -80, 2 ** 70 + 1), 7]
+    out = []
+    for i, a in enumerate(big):
+        for b in (big[(i + 1) % len(big)], big[(i + 3) % len(big)], a):
+            out.append((a, b))
+    return out
+
+
+def entry_problems():
+    """Function.__call__ (convert=True): arguments are taken exactly as given, whatever host type carries them"""
+    from fractions import Fraction
+    from fpy2 import Float
+    from . import progs
+    g = progs.load(ENTRY_SRC)
+
+    def exact(v):
+        return v.as_rational() if isinstance(v, Float) else Fraction(v)
+    bad = []; n = 0
+    for a, b in entry_cases():
+        want = exact(a) - exact(b)
+        for label, call in (('diff(a, b)', lambda: g['diff'](a, b)), ('pick([b, a], (b, a))', lambda: g['pick']([b, a], (b, a)))):
+            n += 1
+            try:
+                r = call()
+                got = exact(r) if isinstance(r, (Float, int, Fraction, float)) else None
+            except Exception as ex:  # noqa
+                bad.append([label, repr(a), repr(b), 'raised %r' % ex]); continue
+            if got != want:
+                bad.append([label, repr(a), repr(b), 'returned %s, the arguments differ by %s' % (got, want)])
+    return bad, n
+
+
+def run_entry(task):
+    bad, n = entry_problems()
+    cex = [{'case': {'task': {'kind': 'entry'}, 'inputs': {'row': b}, 'info': str(b)[:200]}} for b in bad[:20]]
+    return dict(paths=0, requires=0, cex=cex, samples=[{'task': task['name'], 'concrete_cases': n, 'concrete': True}], witness={'concrete-entry': n}, extra={'diff_runs': n, 'concrete_entry_cases': n})
+
+
 def run_task(task):
     if task['kind'] == 'special':
         return run_special(task)
+    if task['kind'] == 'entry':
+        return run_entry(task)
     import z3
     from pysym.core import explore
     from pysym import summaries, shims
@@ -266,7 +332,7 @@ def describe(tier):
                '/repo/docs/source/dev/semantics.rst', '/repo/docs/source/dev/derived-semantics.rst', '/repo/docs/USAGE.md'],
         bounds=dict(programs=len(_programs(tier)), caller_contexts=list(CALLERS.values()), argument_significand_bits=tv.TIER[tier]['CW'], argument_exponent=tv.EXP0, list_lengths='as listed per program (0..5)',
                     concrete_special_values='NaN, +-inf, -0, +0, 2^-10, 171*2^-7, -40, 1'),
-        outside=['programs outside the corpus', 'division, elementary functions, pow in program bodies (no summary)', 'symbolic special operands (specials are covered by the concrete table only)', 'Function.__call__ conversion of Python floats / results (convert=True): see C18 / C05'],
+        outside=['programs outside the corpus', 'division, elementary functions, pow in program bodies (no summary)', 'symbolic special operands (specials are covered by the concrete table only)', 'Function.__call__ conversion (convert=True) beyond the concrete entry table (ints, Fractions, floats, Floats, bare and inside lists / tuples)'],
         stubs=['ops.add/sub/mul/fma/neg/fabs/round -> validated summaries on both sides', 'int / Fraction proxies, number formatting'],
         assumptions=['a negative integer literal is a literal (exact), any other unary minus is the rounded negation', 'when the reference is stuck (no rule applies) the real run must raise; the exception class is not compared'],
         rule='one case = one feasible joint path of (reference evaluator, real interpreter) for a (program, argument shape, caller context)',
